@@ -36,6 +36,7 @@ func init() {
 		zz + "PoolMode":     extPoolMode,
 		zz + "Freeze":       extFreeze,
 		zz + "Par":          extPar,
+		zz + "SetGlobalInt": extSetGlobalInt,
 		zz + "Stress":       func(e *Exec, _ *frame, _ token.Pos, _ *ssa.Function, a []Value) Value { return e.ts.Const(64, 1) },
 		zz + "Fail":         extFail,
 		zz + "HangIsViolation": func(e *Exec, _ *frame, _ token.Pos, _ *ssa.Function, _ []Value) Value {
@@ -1155,3 +1156,30 @@ func extReplacerReplace(e *Exec, fr *frame, pos token.Pos, fn *ssa.Function, arg
 // rendering of the value kinds the transform produces (maps with concrete keys in sorted
 // order, slices, strings with possibly symbolic bytes, integers, concrete floats, bools,
 // nil). Non-finite floats are an error, as in the real encoder.
+
+
+// extSetGlobalInt: zz.SetGlobalInt("pkg/path.name", v) sets an integer package variable of the
+// analysed program (natively a no-op: harnesses reach the same state by other means).
+func extSetGlobalInt(e *Exec, _ *frame, _ token.Pos, _ *ssa.Function, a []Value) Value {
+	name := e.concStr(a[0], "SetGlobalInt name")
+	i := strings.LastIndex(name, ".")
+	if i < 0 {
+		panic(unsupported("SetGlobalInt: want pkg/path.name"))
+	}
+	for _, p := range e.prog.AllPackages() {
+		if p.Pkg.Path() == name[:i] {
+			if g, ok := p.Members[name[i+1:]].(*ssa.Global); ok {
+				e.ensureInit(p, false)
+				cell := e.globalCell(g)
+				w, _, _ := intWidth(g.Type().(*types.Pointer).Elem())
+				v := a[1].(*Term)
+				if v.width != w {
+					v = e.ts.SExt(v, w)
+				}
+				*cell = v
+				return nil
+			}
+		}
+	}
+	panic(unsupported("SetGlobalInt: no such global " + name))
+}
